@@ -54,3 +54,11 @@ CHECKS["C14"] = (
     "Trusted: vf/blocking.py (LPT-consistency search, brute-force optimum). Direct calls use a stub carrying the group size under the attribute names the copies read today; if they move, the family turns inconclusive rather than alarming.",
     "DESIGN.md 3 C14",
 )
+
+CHECKS["C05"] = (
+    "exploration",
+    "runtime monitoring: the real Distributor built through its public constructor on generated shapes; storage-level tiling/aliasing monitors on blocks, gradient blocks and update_params; differential run of a blocked tensor against its blocks as separate parameters",
+    "Structural: every block shares the parameter's storage, index sets (from offset/strides/shape) partition the parameter exactly, blocks are boxes of some legally merged row-major view with that view's strides, no block dim exceeds the limit, gradient blocks address the same index sets of p.grad, update_params adds each block's update to exactly that block's elements and nothing else (parameter embedded in a larger buffer). Thorough enumerates all 781 shapes (order 0..4, dims 1..5) x 7 limits x merge on/off; quick a 12% sample plus all shapes of order<=2. Invariance: ~50/480 generated float64 configurations (Shampoo/SOAP, grafting kinds, momentum, decay, absent gradients) stepped side by side with the pre-split twin, per-step block deltas within 1e-6 relative. Exhaustive below the stated bound for the structural part; sampled for invariance.",
+    "Trusted: index-set computation from torch strides; the candidate enumeration of legal merges (vf/blocking.merge_is_legal). Greedy/maximal merging is not demanded.",
+    "DESIGN.md 3 C05",
+)
